@@ -23,6 +23,18 @@ claimed = {
          "Necessary conditions for slot progress on all paths: slot sends hold the slot mutex; release is lock-free and non-blocking apart from its receives; Lock->Unlock pairing; exactly CoresPerTask > cap(slots) is rejected fatally before any goroutine starts (cores == max accepted); no mutex possibly held and no other blocking channel operation on the way to the command; acquire->release pairing. Not decided: real overlap of fitting tasks, fairness.", "§7 C07"),
  'C09': ("error-fate analysis: one abstract-interpretation scenario per fallible call site",
          "For every failure branch (which no test takes): Fail* helpers end in os.Exit(non-zero); a non-nil error from command execution, mkdir (temp/out/audit dirs), audit marshal/write, declared-output rename, temp-dir removal, a missing declared output, a missing placeholder value, an unknown placeholder type, an invalid output path => a never-returning call is inevitable, Done is not signalled; no recover() in the library; no port send below Execute. Not decided: OS-level exit status beyond the os.Exit constant.", "§7 C09"),
+ 'C04': ("complete-loop (for-all) idiom + scenario analysis of the close test + loop-iteration counting",
+         "Necessary conditions of exactly-once processing/delivery on all paths: broadcast send/close to every remote port; in-port channel closed exactly when the last upstream closed (len==0 after delete, under closeLock; scenarios len=0,1,2); one NewTask per loop iteration built from this iteration's one-element-per-port receive rounds; closed port ends task creation; no-ports process runs once; every process spawned once and the driver only synchronously (skip/delete idiom on the ranged map; repaired defect F2/F7); Process.Run forwards every output; the sink drains all ports concurrently. Not decided: absence of loss/duplication for the channel network as a whole.", "§7 C04"),
+ 'C05': ("typestate (close/send) + must-precede on the feasible subgraph + guard-multiset pairing + scenarios",
+         "Necessary conditions of 'Run returns exactly when all work is done': scheduling loop left only with feed nil AND queue empty; new-task and oldest-done in one blocking select; every process type closes its out-ports on all returning paths and never sends after close; Done only after all renames, temp-dir removal and slot release; sink starts all drainers before waiting, same guards, drain to closure; dangling (param) out-ports wired to the sink, every connection examined; temp dir and FIFOs removed. Deadlock-freedom/termination of the network as a whole is NOT decided by this family (stated in DESIGN §9).", "§7 C05"),
+ 'C08': ("FIFO-queue idiom recognition on symbolic values + who-may-send + scenario (stream flag false)",
+         "Necessary conditions of order preservation: started-task queue is append-tail/read-[0]/pop-[1:], the awaited Done and the forwarded outputs are the head's; OutPort.Send in package scipipe only from Process.Run, nothing below Execute sends; with streaming off every reachable send forwards the queue head (no fast path can overtake); port sends are plain blocking sends without goroutine/select; one sequential task feeder. Go channel FIFO is assumed.", "§7 C08"),
+ 'C10': ("field-by-field value-flow (symbolic roots resolved through calling contexts) + complete-loop idiom",
+         "Every AuditInfo field is stored from the right root (Command=Task.Command, process name, Params, start/finish = time.Now before/after the command on all paths, ExecTimeNS = finish.Sub(start), OutFiles over all out-IPs, Upstream[Path(in)] = in.AuditInfo() for every in-IP and every sub-stream member, unconditionally); record attached, tags merged and file written for every out-IP; write errors fatal; Tags maps never shared between records. Not decided: that a concrete run's JSON equals its true lineage.", "§7 C10"),
+ 'C11': ("type-level serialisability check + writer/reader agreement + scenarios on the loader",
+         "AuditInfo is losslessly serialisable by encoding/json (all fields exported, no dropping tags, closed type set, no custom marshalers); writer replaces the whole file at AuditFilePath with the JSON of the record, reader decodes the same path into the same type; nil cache => load from file under the IP lock; unreadable/unparsable => exit, missing => empty; audit written for all outputs before any rename. Not decided: equality of lineages across run histories.", "§7 C11"),
+ 'C14': ("value-flow coverage of the hash pre-image + order-taint + constant/threshold arithmetic",
+         "The SHA-1 pre-image covers name, every in-IP path, every sub-stream member, key AND value of every param and tag (each from its own map); every contributing map is traversed in sorted order; result is prefix.hex(sha1) with the fold threshold T satisfying T+1+40<=255, sanitiser removes '/', no clock/random input; carrier IP of a joined port excluded (repaired defect F5). Known finding K1: pieces joined with an empty separator (non-injective). SHA-1 collision resistance assumed.", "§7 C14"),
 }
 
 checks = []
